@@ -588,6 +588,16 @@ def fragment_value(data: str) -> int:
     return value
 
 
+def tcp_flags_value(data: str) -> int:
+    # RFC 8955 section 4.2.2.9: in the two octet form the data offset - the four high bits of the
+    # first octet - must be zero on encoding. `tcp-flags 0x1000` sent one of them.
+    _str_bad_tcp_flags = 'you tried to filter a flow using tcp flag bits above 0x0fff, which are not flags ..'
+    value = TCPFlag.named(data)
+    if value & ~0x0FFF:
+        raise ValueError(_str_bad_tcp_flags)
+    return value
+
+
 # Protocol Shared
 
 
@@ -688,7 +698,7 @@ class FlowTCPFlag(IOperationByteShort, BinaryString, FlowIPv4, FlowIPv6):
     ID: ClassVar[int] = 0x09
     NAME: ClassVar[str] = 'tcp-flags'
     FLAG: ClassVar[bool] = True
-    converter: ClassVar[Callable[[str], BaseValue]] = converter(TCPFlag.named, TCPFlag)
+    converter: ClassVar[Callable[[str], BaseValue]] = converter(tcp_flags_value, TCPFlag)
     decoder: ClassVar[Callable[[bytes], BaseValue]] = decoder(_number, TCPFlag)
 
 
